@@ -105,6 +105,8 @@ structure Snap where
   nr1 : Nat
   rh0 : String
   rh1 : String
+  rr0 : String := ""   -- Manager.SectorRoots only
+  rr1 : String := ""
   bal0 : Nat
   charged : Nat
   gained : Nat
@@ -113,7 +115,8 @@ def getSnap (obs : List (String × String)) : Option Snap :=
   match getNat obs "rv0", getNat obs "rv1", getNat obs "fs0", getNat obs "fs1", getNat obs "nr0", getNat obs "nr1",
         getStr obs "rh0", getStr obs "rh1", getNat obs "bal0", getNat obs "charged", getNat obs "gained" with
   | some a, some b, some c, some d, some e, some f, some g, some h, some i, some j, some k =>
-      some { rv0 := a, rv1 := b, fs0 := c, fs1 := d, nr0 := e, nr1 := f, rh0 := g, rh1 := h, bal0 := i, charged := j, gained := k }
+      some { rv0 := a, rv1 := b, fs0 := c, fs1 := d, nr0 := e, nr1 := f, rh0 := g, rh1 := h, bal0 := i, charged := j, gained := k,
+             rr0 := (getStr obs "rr0").getD "", rr1 := (getStr obs "rr1").getD "" }
   | _, _, _, _, _, _, _, _, _, _, _ => none
 
 def crashVerdicts (op : String) (obs : List (String × String)) : List Verdict :=
@@ -125,7 +128,8 @@ def crashVerdicts (op : String) (obs : List (String × String)) : List Verdict :
 /-- a rejected request must leave revision and roots alone -/
 def noopVerdicts (sn : Snap) (revisionMayMove : Bool) : List Verdict :=
   (if !revisionMayMove && (sn.rv0 != sn.rv1) then [.monitor "reject_noop/revision" s!"{sn.rv0}->{sn.rv1}"] else []) ++
-  (if sn.fs0 != sn.fs1 || sn.nr0 != sn.nr1 then [.monitor "reject_noop/roots" s!"n={sn.nr0}->{sn.nr1},size={sn.fs0}->{sn.fs1}"] else []) ++
+  (if sn.fs0 != sn.fs1 || sn.nr0 != sn.nr1 then [.monitor "reject_noop/roots" s!"n={sn.nr0}->{sn.nr1},size={sn.fs0}->{sn.fs1}"]
+   else if sn.rr0 != sn.rr1 then [.monitor "reject_noop/sector_roots" s!"Manager.SectorRoots {sn.rr0}->{sn.rr1}"] else []) ++
   (if !revisionMayMove && sn.rh0 != sn.rh1 && sn.rv0 == sn.rv1 && sn.nr0 == sn.nr1 then
      [.monitor "reject_noop/contract_content" s!"{sn.rh0}->{sn.rh1}"] else [])
 
@@ -318,6 +322,51 @@ def step (fx : Fixes) (d : DState) (l : Line) : DState × List Verdict :=
           [.mismatch "res" (match o with | .accept _ => "accept" | .refused => "reject(refused)" | .failed k _ => s!"reject(k={k})" | .panic k s => s!"crash({k},{s.name})") r]
       (d, mon ++ noop ++ vs)
     | _, _, _ => (d, [.badline "x3 fields"])
+  else if l.op == "r3" then
+    let mon := crashVerdicts "r3" l.obs
+    let payS := (getStr l.args "pay").getD "acct"
+    let byContract := payS.startsWith "c_"
+    let rpc? : Option Rpc3 := match getStr l.args "rpc" with
+      | some "fund" => some .fund | some "bal" => some .balance | some "rev" => some .revision | some "pt" => some .priceTable | _ => none
+    match rpc?, getNat l.args "amount", getNat l.args "n" with
+    | some rpc, some amount, some n =>
+      if res == "hang" then (d, mon) else
+      let pay : PayMode := match payS with
+        | "acct" | "c_ok" | "none" => .ok
+        | "c_sumovf" => .sumOverflow
+        | _ => .refused
+      let sn? := getSnap l.obs
+      let bal0 := match sn? with | some sn => sn.bal0 | none => 0
+      let r : PaidReq := { rpc, uidOk := getStr l.args "uid" != some "bad", pay, byContract, amount,
+                           cost := (getNat l.obs "cost").getD 0, toSelf := getStr l.args "acct" != some "zero",
+                           known := getNat l.args "fcid" != some 0, pays := payS != "none" }
+      let s0 : HostState := { rev := 0, roots := List.range n, balance := bal0 }
+      let (o, s1) := paid fx s0 r
+      let d := match o with | .panic _ => { d with modelPanics := d.modelPanics + 1 } | _ => d
+      let stateCmp (sn : Snap) : List Verdict :=
+        cmp "rev" (toString s1.rev) (toString (sn.rv1 - sn.rv0)) ++
+        cmp "balance" (toString (s1.balance : Int)) (toString ((sn.bal0 : Int) + sn.gained - sn.charged))
+      let vs : List Verdict :=
+        match o, res, sn? with
+        | .panic site, "crash", _ => cmp "site" site.name ((getStr l.obs "site").getD "?")
+        | .accept, "accept", some sn => stateCmp sn
+        | .reject, "reject", some sn => stateCmp sn
+        | o, r, _ => [.mismatch "res" (reprStr o) r]
+      -- model-independent monitors
+      let noop : List Verdict :=
+        match sn?, res with
+        | some sn, "reject" =>
+          let paidFirst := payS == "c_ok" && sn.rv1 == sn.rv0 + 1
+          noopVerdicts sn paidFirst ++
+          (if paidFirst then
+             (if sn.charged != 0 || sn.gained > amount then [.monitor "reject_noop/balance_gained" s!"charged={sn.charged},gained={sn.gained},paid={amount}"] else [])
+           else if sn.charged != 0 || sn.gained != 0 then [.monitor "reject_noop/balance_refused" s!"charged={sn.charged},gained={sn.gained}"] else [])
+        | some sn, "accept" =>
+          (if !byContract && sn.charged > amount then [.monitor "reject_noop/overcharge" s!"charged={sn.charged},budget={amount}"] else []) ++
+          (if sn.fs0 != sn.fs1 || sn.nr0 != sn.nr1 || sn.rr0 != sn.rr1 then [.monitor "reject_noop/sector_roots" "a payment RPC changed the sector roots"] else [])
+        | _, _ => []
+      (d, mon ++ noop ++ vs)
+    | _, _, _ => (d, [.badline "r3 fields"])
   else if l.op == "v2roots" then
     match getNat l.args "n", getNat l.args "off", getNat l.args "num" with
     | some n, some off, some num =>
